@@ -270,8 +270,9 @@ def kal_rules(ctx):
     ctx.rule('KAL-FLAGS', 'cholesky / cho_solve / solve_triangular use the same triangle of the '
              'same factor')
     ctx.rule('KAL-GAIN', 'state update == x + P H^T S^-1 (z - H x), S == H P H^T + R')
-    ctx.rule('KAL-PSD', 'posterior covariance == Joseph form and every summand is a congruence '
-             'A M A^T with M in {P, R}')
+    ctx.rule('KAL-PSD', 'posterior covariance == Joseph form (I-KH) P (I-KH)^T + K R K^T as a free '
+             'non-commutative polynomial (a sum of congruences of P and R: symmetric PSD by '
+             'construction; the simple form (I-KH) P is equal only modulo S^-1 S = I and fails)')
     ctx.rule('KAL-RESID', 'innovation == L^-1 (z - H x) with L the lower Cholesky factor of S')
     f = ctx.repo.function('kalman.correct')
     ctx.need(len(f.params) == 5, 'kalman.correct signature changed')
@@ -317,36 +318,6 @@ def kal_rules(ctx):
            'P_post == (I - K H) P (I - K H)^T + K R K^T', f=f, node=rets[1][0], key='joseph',
            why='returned covariance is not the Joseph form with K = P H^T S^-1: symmetry / '
                'positive semi-definiteness is not guaranteed for ill-conditioned input')
-    # congruence grammar
-    def summands(n):
-        if isinstance(n, ast.BinOp) and isinstance(n.op, ast.Add):
-            return summands(n.left) + summands(n.right)
-        return [n]
-
-    def chain(n):
-        """flatten a product a.dot(b).dot(c) / a @ b @ c into factors"""
-        if isinstance(n, ast.BinOp) and isinstance(n.op, ast.MatMult):
-            return chain(n.left) + chain(n.right)
-        if isinstance(n, ast.Call) and isinstance(n.func, ast.Attribute) and \
-                n.func.attr == 'dot' and len(n.args) == 1 and E.res(n.func) is None:
-            return chain(n.func.value) + chain(n.args[0])
-        return [n]
-    root = rets[1][0]
-    if isinstance(root, ast.Name):
-        # follow one assignment
-        for st in f.node.body:
-            if isinstance(st, ast.Assign) and norm_text(st.targets[0]) == root.id:
-                root = st.value
-    for sm_ in summands(root):
-        fs = chain(sm_)
-        ok = False
-        if len(fs) == 3:
-            a_, m_, b_ = (E.ev(q) for q in fs)
-            ok = (A.eq(m_, at(P)) or A.eq(m_, at(R))) and A.eq(b_, A.T(a_))
-        ctx.ob('KAL-PSD', ok, None, 'summand `%s` is a congruence A M A^T, M in {P, R}'
-               % norm_text(sm_), f=f, node=sm_,
-               why='covariance summand `%s` is not of the form A M A^T with M = P or R: not '
-                   'symmetric positive semi-definite by construction' % norm_text(sm_))
     # innovation
     r2 = rets[2][1]
     Linv = at('inv(%s)' % fname)
@@ -544,3 +515,59 @@ def q_psd(ctx):
             ctx.ob('Q-PSD', ok, None, 'feedback: start time read before, end time after the '
                    'integration of the batch', f=fb, node=n, key='fb-order',
                    why='the propagation interval is not measured around the integrated batch')
+
+
+# ------------------------------------------------------------ USE-AFTER-OVERWRITE
+def use_after_overwrite(ctx):
+    ctx.rule('USE-AFTER-OVERWRITE', 'an array handed to a LAPACK wrapper with overwrite_*=True '
+             '(or as out=) holds unspecified contents afterwards (overwritten or not depending '
+             'on memory layout): it is never read again')
+    n = 0
+    for f in ctx.repo.all_functions():
+        for st in ast.walk(f.node):
+            if not isinstance(st, ast.stmt):
+                continue
+            for call in [c for c in ast.walk(st) if isinstance(c, ast.Call)]:
+                q = f.module.resolve(call.func, f.local_names()) or ''
+                victims = []
+                for kw in call.keywords:
+                    if kw.arg in ('overwrite_a', 'overwrite_b', 'overwrite_x') and \
+                            isinstance(kw.value, ast.Constant) and kw.value.value is True:
+                        pos = {'overwrite_a': 0, 'overwrite_b': 1, 'overwrite_x': 0}[kw.arg]
+                        if q.endswith('cho_solve') or q.endswith('solve_triangular') or \
+                                q.endswith('.solve'):
+                            pos = 1 if kw.arg == 'overwrite_b' else 0
+                        if len(call.args) > pos and isinstance(call.args[pos], ast.Name):
+                            victims.append(call.args[pos].id)
+                for v in victims:
+                    n += 1
+                    later = _reads_after(f.node, st, v)
+                    ctx.ob('USE-AFTER-OVERWRITE', not later, None,
+                           "%s: `%s` is dead after `%s(..., overwrite=True)`"
+                           % (f.qualname, v, q.split('.')[-1]), f=f,
+                           node=(later[0] if later else call), key='uao-%s-%s' % (f.qualname, v),
+                           why="`%s` is read again after it was passed to %s with an overwrite "
+                               "flag: its contents then depend on the memory layout (Fortran- "
+                               "contiguous inputs, e.g. a single row or column, are overwritten "
+                               "in place; others are copied), so the result is wrong for some "
+                               "shapes only" % (v, q.split('.')[-1]))
+    ctx.floor('USE-AFTER-OVERWRITE', n, 1, 'overwrite sites')
+
+
+def _reads_after(fnode, stmt, name):
+    """Loads of `name` in statements after `stmt` (same block chain), before a rebinding."""
+    from ..flow import path_to, assigned_names
+    p = path_to(fnode.body, stmt)
+    out = []
+    if not p:
+        return out
+    for block, idx in reversed(p):
+        for st in block[idx + 1:]:
+            for n in ast.walk(st):
+                if isinstance(n, ast.Name) and n.id == name and isinstance(n.ctx, ast.Load):
+                    out.append(n)
+            if name in assigned_names(st) and not out:
+                return out
+        enclosing_loop = False
+    # also later uses inside the same statement are evaluated before the call -> ignored
+    return out
